@@ -16,9 +16,32 @@ class C02(Prop):
             "repr, other resets), RETRACE (new jit wrappers on the same object) and CRASH_RESTART (new object, states pickled); every "
             "response is compared with a pristine reference instance, arguments are snapshotted around EAGER/JIT calls, and each "
             "client's interleaved history is compared with its solo history; distinct = distinct (ops, final states) digest; "
-            "non-trivial = >= 3 responses compared and >= 1 fault fired")
+            "non-trivial = >= 3 responses compared and >= 1 fault fired. In addition, per env, a fixed request sequence on one configuration is "
+            "answered in a fresh process and in a process that used another configuration of the same class before (OTHER_HISTORY); the "
+            "response digests must agree")
     assumptions = ["float leaves are compared with rtol 1e-5 / atol 1e-6 (eager vs jit differ by 1 ulp on CVRP's penalty constant)"]
     quick_runs = 5
+
+    def expand(self, task: Dict[str, Any]) -> List[Dict[str, Any]]:
+        """Besides the multi-client simulation of (env, cfg) add, once per env, an OTHER_HISTORY task: the
+        second configuration is exercised in a process that used the first configuration before."""
+        from jsim import envs
+
+        out = [task]
+        cfgs = self.select_configs(envs.get(task["env"]), task["tier"])
+        if task["shard"] == 0 and len(cfgs) >= 2:
+            idx = [c["id"] for c in cfgs].index(task["cfg"]["id"])
+            if idx >= 1 and not task["cfg"].get("clock"):
+                t = dict(task)
+                t["kind"] = "xhist_after"
+                t["first_cfg"] = cfgs[0] if task["tier"] == "quick" else cfgs[idx - 1]
+                out.append(t)
+        return out
+
+    def post(self, results: List[Dict[str, Any]], seed: int) -> List[Dict[str, Any]]:
+        from jsim import puresim
+
+        return puresim.xhist_compare(results, seed)
 
     def run_task(self, task: Dict[str, Any]) -> Dict[str, Any]:
         from jsim import puresim
